@@ -58,6 +58,11 @@
   the state it leaves (no hypothesis at all); `sig_core_safe_after_noclen`. Tests pin that the CORE does panic on a
   suspended / failed object: the guard is necessary.
   Assumed (as everywhere): arrays handed to Init are cleared (Go's Init does not clear them either).
+  SCOPE NOTES after the second sceptical review (AB1): every panic-freedom theorem carries the documented
+  `b.size ≤ 65535` (the sentence "after ANY legitimate call" does too); `sig_never_panics_any_verdict_schedule` speaks about
+  SOME buffer of the schedule (`∃ b ∈ l`) — the older `sig_never_panics` / schedule forms name the buffer of the completing
+  call and bound `bufLen` by it; for MoreBytes and error verdicts the statement follows from the two-line guard alone
+  (msg_sig.go:206-212), its content is the missing-Content-Length case plus `verdict_state_relation`.
 -/
 import Sipsp.Proofs.ProgressNA
 import Sipsp.Proofs.SafeMsg
